@@ -15,7 +15,7 @@ PID = "C08"
 NAMESPACE = "Simu.C08"
 THEOREMS = ["code_as_modelled", "epi_types_admissible", "admission_gate", "init_inv", "remesh_inv", "division_inv", "faceTypes_inv", "contact_inv",
             "polarise_inv", "removal_inv", "removal_exact", "erase_alone_breaks", "iteration_inv", "reach_inv",
-            "use_inv", "deref_safe", "reach_deref_safe", "ids_never_reused", "stateAfter_eq", "checker_sound",
+            "use_inv", "deref_safe", "reach_deref_safe", "ids_never_reused", "id_designates_one_cell", "stateAfter_eq", "checker_sound",
             "cells0_ok"]
 GEN = ["Population"]
 HARNESS = os.path.join(vlib.VERIF, "harness", "h_population.cpp")
@@ -57,18 +57,22 @@ def gen_scenario(r, k):
         kinds[r.randint(0, n - 1)] = 0
         nfts = [max(nf, 2) if kd == 0 else nf for kd, nf in zip(kinds, nfts)]
     sched = []
-    nev = r.randint(1, 6)
+    nev = r.randint(1, 7)
     for _ in range(nev):
         it = r.randint(0, iters - 1)
         # positions: first, last, middle, anywhere (the harness reduces modulo the current length)
-        pos = r.choice([0, 0, 1, n - 1, n // 2, r.randint(0, 2 * n)])
-        act = r.choice("RRD")
+        pos = r.choice([0, 0, 1, n - 1, n - 1, n // 2, r.randint(0, 2 * n)])
+        act = r.choice("RRDD")
         if act == "D":
             it = r.choice([0, 0, 3, 5, 8, 10]) if iters > 5 else 0
+            if r.randint(0, 3) == 0:       # several mothers in the same round
+                sched.append("%d:%d:D" % (it, r.randint(0, 2 * n)))
+        elif r.randint(0, 5) == 0:         # a cell removed in the very iteration a division round runs
+            it = r.choice([0, 5, 10]) if iters > 10 else 0
         sched.append("%d:%d:%s" % (it, pos, act))
     sc = {"mesh": mesh, "n": n, "nx": r.choice([2, 3]), "iters": iters, "kinds": ",".join(map(str, kinds)),
           "nft": ",".join(map(str, nfts)), "sched": ",".join(sched), "sp": r.choice(["1", "1", "2.5e-7"]),
-          "axis": r.choice(["1", "1", "0", "1,0,0", "0,0,1"])}
+          "axis": r.choice(["1", "1", "1", "0", "1,0,0", "0,0,1", "0,0,-1"])}
     sc.update(geo)
     return sc
 
@@ -415,6 +419,29 @@ def analyse(sc, rec, status, errtail, drv, stats, V, widen=False):
                 V.fail_input("the mesh contract assumed by the theorems does not hold (node ids / face nodes)",
                              {"line": line, "iteration": o["it"], "point": point, "detail": x}, key=None)
         checks.append("check %d %d %s" % (o["pt"], nextobj, o["raw"]))
+    # the model of the polarisation: a face of an epithelial cell becomes lateral (1) only if its three nodes were coupled
+    # at the use point; a face whose nodes were not all coupled keeps its type
+    by = {(o["it"], o["pt"]): o for o in obs}
+    for (it, pt), o2 in by.items():
+        if pt != 2 or (it, 1) not in by:
+            continue
+        o1 = by[(it, 1)]
+        c1 = {c["obj"]: c for c in o1["cells"]}
+        for c in o2["cells"]:
+            a = c1.get(c["obj"])
+            if a is None or a["kind"] != 0 or len(a["faces"]) != len(c["faces"]):
+                continue
+            for fa, fb in zip(a["faces"], c["faces"]):
+                if not fa[0]:
+                    continue
+                allc = all(q < len(a["nodes"]) and a["nodes"][q][1] and a["nodes"][q][2] is not None for q in fa[3:6])
+                stats["polar_faces"] += 1
+                if (not allc and fb[1] != fa[1]) or (allc and fb[1] not in (0, 1)):
+                    V.fail_tie("correspondence", "polarisation model: face of cell id %d went from type %d to %d with all-nodes-coupled=%s (iteration %d)" % (c["id"], fa[1], fb[1], allc, it), line=line)
+                    stats["disagreements"] += 1
+                    break
+                if allc:
+                    stats["polar_lateral"] += fb[1]
     if status.startswith("crash") or status == "not-run":
         nfail += 1
         V.fail_input("the run of the real solver ended abnormally (sanitizer report / crash)", {"line": line, "status": status, "detail": " ".join(errtail.split())[:700]}, key=None)
@@ -433,6 +460,7 @@ def analyse(sc, rec, status, errtail, drv, stats, V, widen=False):
                 stats["removals"] += len(rm)
                 for p in rm:
                     stats["rm_pos"]["first" if p == 0 else "other"] += 1
+
             out, rc, err = vlib.run_lines(drv, [rq] + checks, timeout=600)
             if rc != 0 or len(out) != 1 + len(checks):
                 V.fail_tie("correspondence", "model driver ended abnormally (rc=%s, %d answers for %d requests) %s" % (rc, len(out), 1 + len(checks), err[-200:]), line=line)
@@ -467,7 +495,7 @@ def analyse(sc, rec, status, errtail, drv, stats, V, widen=False):
 def new_stats():
     return {"scenarios": 0, "states": 0, "use_states": 0, "couplings": 0, "derefs": 0, "divisions": 0, "removals": 0,
             "div_attempts": 0, "replayed_states": 0, "checked_states": 0, "disagreements": 0, "cells_max": 0,
-            "status": {}, "rm_pos": {"first": 0, "other": 0}}
+            "status": {}, "rm_pos": {"first": 0, "other": 0}, "polar_faces": 0, "polar_lateral": 0}
 
 
 def run(ctx):
@@ -485,9 +513,9 @@ def run(ctx):
         if not ok:
             V.fail_tie("proof", "leanchecker rejected SimuVerif.Properties.C08", log=log)
     exe, rebuilt = vlib.build_repo.build_harness(HARNESS, "h_population", link_repo=True)
-    n = 26 if tier == "quick" else 260
+    n = 60 if tier == "quick" else 1500
     if not proof["ok"]:
-        n = max(n, 120)        # a proof broke: widen the search for a concrete failing input
+        n = max(n, 200)        # a proof broke: widen the search for a concrete failing input
     r = Rng(seed)
     scenarios = [dict(c) for c in CORPUS] + [gen_scenario(r, k) for k in range(n)]
     results = run_harness(exe, scenarios)
@@ -525,6 +553,7 @@ def run(ctx):
         "couplings_resolved": stats["couplings"], "dereferences_resolved": stats["derefs"],
         "divisions_observed": stats["divisions"], "division_attempts": stats["div_attempts"], "removals_observed": stats["removals"],
         "removed_positions": stats["rm_pos"], "max_cells": stats["cells_max"],
+        "polarisation_faces_checked": stats["polar_faces"], "faces_marked_lateral": stats["polar_lateral"],
         "replayed_states": stats["replayed_states"], "checker_states": stats["checked_states"],
         "model_vs_impl_disagreements": stats["disagreements"], "oracle_failures": oracle_fail,
         "repo_objects_rebuilt": rebuilt, "samples": samples,
